@@ -143,7 +143,7 @@ def r2_lookup_order(a, tier):
         raise Unsupported('getattr on non-semantics object')
 
     for what, sem, name, want in cases:
-        ev = MiniEval(dict(module_constants(fn.module)), calls={'getattr': _getattr, 'safe_name': lambda s, *x: s, 'callable': callable})
+        ev = MiniEval(dict(module_constants(fn.module)), calls={'getattr': _getattr, 'safe_name': lambda s, *x: s, 'callable': callable, 'id': id})
         for hn, hf in fn.module.functions.items():  # module-level helpers of the lookup are interpretable too
             if hn not in ev.calls and hf is not fn and not hf.decorators:
                 ev.globals.setdefault(hn, ('<func>', hf.node, {}))
